@@ -526,4 +526,75 @@ theorem mergeO_trace (f g : Mach) (hf : f.Extends) (hg : g.Extends) (a b : Nat)
       rw [hr, hres] at hq
       cases hgr : ((probe b g).call t d arg ((probe a f).call s d arg w).w).res <;> simp [mergeO, hres, hd, hq, hgr]
 
+/-- `Handler.Join` (`of(in); next(in)`, also `Handler.PreHook(prev) = prev.Join(of)`): both parts run,
+    in order, unless the first panics -/
+theorem mergeH_trace (f g : Mach) (hf : f.Extends) (hg : g.Extends) (a b : Nat)
+    (s : f.σ) (t : g.σ) (d : Bool) (arg : Int) (w : World) :
+    ∃ evf, let o := (mergeH (probe a f) (probe b g)).call (s, t) d arg w
+      let r := (probe a f).call s d arg w
+      let tf := Ev.ret a r.res :: (evf ++ .call a :: w.trace)
+      match r.res with
+      | .panic p => o.w.trace = tf ∧ o.res = .panic p
+      | .ret _ _ => ∃ evg rg, o.w.trace = .ret b rg :: (evg ++ .call b :: tf) := by
+  obtain ⟨evf, hr⟩ := probe_call a f hf s d arg w
+  obtain ⟨evg, hq⟩ := probe_call b g hg t d arg ((probe a f).call s d arg w).w
+  refine ⟨evf, ?_⟩
+  simp only
+  cases hres : ((probe a f).call s d arg w).res with
+  | panic p => simp [mergeH, hres, hr]
+  | ret v e =>
+    refine ⟨evg, ((probe b g).call t d arg ((probe a f).call s d arg w).w).res, ?_⟩
+    rw [hr, hres] at hq
+    cases hgr : ((probe b g).call t d arg ((probe a f).call s d arg w).w).res <;> simp [mergeH, hres, hq, hgr]
+
+/-- one step of `Future.Join(merge, ops...)`: `out = merge(out, op())` evaluates the parts in order -/
+theorem mergeF_trace (f g : Mach) (hf : f.Extends) (hg : g.Extends) (a b : Nat)
+    (s : f.σ) (t : g.σ) (d : Bool) (arg : Int) (w : World) :
+    ∃ evf, let o := (mergeF (probe a f) (probe b g)).call (s, t) d arg w
+      let r := (probe a f).call s d arg w
+      let tf := Ev.ret a r.res :: (evf ++ .call a :: w.trace)
+      match r.res with
+      | .panic p => o.w.trace = tf ∧ o.res = .panic p
+      | .ret _ _ => ∃ evg rg, o.w.trace = .ret b rg :: (evg ++ .call b :: tf) := by
+  obtain ⟨evf, hr⟩ := probe_call a f hf s d arg w
+  obtain ⟨evg, hq⟩ := probe_call b g hg t d arg ((probe a f).call s d arg w).w
+  refine ⟨evf, ?_⟩
+  simp only
+  cases hres : ((probe a f).call s d arg w).res with
+  | panic p => simp [mergeF, hres, hr]
+  | ret v e =>
+    refine ⟨evg, ((probe b g).call t d arg ((probe a f).call s d arg w).w).res, ?_⟩
+    rw [hr, hres] at hq
+    cases hgr : ((probe b g).call t d arg ((probe a f).call s d arg w).w).res <;> simp [mergeF, hres, hq, hgr]
+
+/-- `Producer.Join`: the stage never goes back (first producer, then the second, then exhausted), and
+    once the first producer is done (any stage but 0) a call does not touch it any more -/
+theorem pjoinSecond_stage (g : Mach) (d : Bool) (arg : Int) : ∀ (fuel : Nat) (j : PJoinSt) (t : g.σ) (w : World),
+    j.stage ≤ (pjoinSecond g d arg fuel j t w).st.1.stage ∨ (pjoinSecond g d arg fuel j t w).st.1.stage ≥ 3 := by
+  intro fuel
+  induction fuel with
+  | zero => intro j t w; simp [pjoinSecond]
+  | succ fuel ih =>
+    intro j t w
+    simp only [pjoinSecond]
+    cases (g.call t d arg w).res with
+    | panic p => simp
+    | ret v e =>
+      simp only
+      split
+      · simp
+      · split
+        · exact ih _ _ _
+        · split <;> simp
+
+theorem joinP_first_untouched (f g : Mach) (j : PJoinSt) (s : f.σ) (t : g.σ) (d : Bool) (arg : Int) (w : World)
+    (h : j.stage ≠ 0) : ((joinP f g).call (j, s, t) d arg w).st.2.1 = s := by
+  by_cases h3 : j.stage = 3
+  · simp [joinP, h3]
+  · by_cases h1 : j.stage = 1
+    · simp [joinP, h1]
+    · by_cases h2 : j.stage = 2
+      · simp [joinP, h2]
+      · simp [joinP, h, h1, h2, h3]
+
 end FunModel.Wrap
